@@ -25,9 +25,9 @@ DEFAULT = dict(level="exploration", quick_shards=8, quick_checks=4000, thorough_
 PROPS = {
     "C01": dict(quick_checks=8000),
     "C02": dict(quick_checks=2500, thorough_checks=20000, enum=True),
-    "C03": dict(quick_checks=12000, thorough_checks=100000, fuzz=["FuzzC03JSON", "FuzzC03CBOR", "FuzzC03UBJSON"]),
+    "C03": dict(quick_checks=12000, thorough_checks=100000, enum=True, fuzz=["FuzzC03JSON", "FuzzC03CBOR", "FuzzC03UBJSON"]),
     "C04": dict(quick_checks=8000),
-    "C05": dict(quick_checks=8000, fuzz=["FuzzC05"]),
+    "C05": dict(quick_checks=8000, enum=True, fuzz=["FuzzC05"]),
     "C06": dict(quick_checks=8000, fuzz=["FuzzC06"]),
     "C07": dict(quick_checks=8000),
     "C08": dict(quick_checks=2500, thorough_checks=20000),
@@ -40,7 +40,7 @@ PROPS = {
     "C15": dict(quick_checks=2500, thorough_checks=15000, race_thorough=True),
     "C16": dict(level="fault_enumeration", quick_checks=1500, thorough_checks=10000, enum=True),
     "C17": dict(quick_checks=1500, thorough_checks=10000),
-    "C18": dict(quick_checks=3000, thorough_checks=20000),
+    "C18": dict(quick_checks=3000, thorough_checks=20000, enum=True),
     "C19": dict(quick_checks=300, quick_shards=4, thorough_checks=3000, thorough_shards=8, thorough_rounds=10, race=True, hang_s=60),
     "C20": dict(quick_checks=2500, thorough_checks=15000),
 }
@@ -420,6 +420,7 @@ def run_check(pid, tier, seed, budget_s):
                 "native_fuzz_execs": fuzz_execs,
                 "race_build": bool(use_race),
                 "exhaustive": False,
+                "fault_positions_injected": st["classes"].get("fault_positions", 0),
                 "notes": notes,
             },
             "assumptions": ASSUMPTIONS,
